@@ -100,6 +100,15 @@ def build_model(case):
     # bound keys
     nkeys = 1 << (ndim * (lmax + 1))
     m.bound_key = _make_bound_keys(case, nkeys, rng)
+    if nkeys > 2 ** 53:
+        # the files hold the keys as doubles: beyond 2**53 the stored value is the rounded one, and that is what decides
+        # the ownership (a cut that is not representable would otherwise disagree with the file by one key)
+        keys = [int(float(k)) for k in m.bound_key]
+        for i in range(1, len(keys) - 1):
+            if keys[i] <= keys[i - 1]:
+                keys[i] = int(np.nextafter(float(keys[i - 1]), np.inf))
+        keys[0], keys[-1] = 0, max(int(float(nkeys)), keys[-2] + 1)
+        m.bound_key = keys
     off = child_offsets(ndim)
     m.levels = []
     probs = case["refine_p"]
@@ -527,6 +536,12 @@ def expected_mesh(m, lcap=None):
 def lattice_id(lat, bits):
     """single integer id per lattice point"""
     lat = np.asarray(lat, dtype=np.int64)
+    if (bits + 1) * lat.shape[1] > 62:
+        # does not fit 64 bits (3-D, levelmax >= 20): exact python integers
+        idv = np.zeros(len(lat), dtype=object)
+        for d in range(lat.shape[1]):
+            idv = idv * (1 << (bits + 1)) + lat[:, d].astype(object)
+        return idv
     idv = np.zeros(len(lat), dtype=np.int64)
     for d in range(lat.shape[1]):
         idv = idv * (1 << (bits + 1)) + lat[:, d]
